@@ -86,6 +86,21 @@ where
     assert!(cbytes.len() == CLEN, "C05: serialized commitment has the wrong length");
     assert!(blind.to_bytes() == draw_scalar(0).to_be_bytes(), "C07: secret_prover_blind is not the first fresh draw");
     {
+        // C10: the prover's commitment-challenge input is, octet for octet, I2OSP(M,8) || Q2 || J_1..J_M || C || Cbar
+        // with C = Q2*blind + sum J_j*cm_j and Cbar = Q2*s~ + sum J_j*m~_j (blind, s~, m~_j = the first draws)
+        let bg = stubs::ref_gens(M + 1, true);
+        let mut c_pt = bg[0] * draw_scalar(0);
+        let mut cbar = bg[0] * draw_scalar(1);
+        let mut j = 0;
+        while j < M {
+            c_pt = c_pt + bg[1 + j] * rf::scalar_of_state(o.ans[j]);
+            cbar = cbar + bg[1 + j] * draw_scalar(2 + j);
+            j += 1;
+        }
+        let want = rf::blind_challenge_bytes(&bg, &c_pt, &cbar);
+        assert!(crate::h::p01::cap_equals(0, &want), "C10: the octets hashed into the commitment challenge differ from the draft's input");
+    }
+    {
         // C07: every commitment-proof response is (its own fresh draw) + secret * challenge
         let c = Scalar::from_nonzero_raw(77);
         let s_hat = scalar_at(&cbytes, 48);
